@@ -69,10 +69,10 @@ var selectorTable = map[[2]string]repl{
 
 	{"github.com/bmatcuk/doublestar/v4", "FilepathGlob"}: {"simfs", "FilepathGlob"},
 
-	{"time", "Now"}:   {"simclock", "Now"},
-	{"time", "Since"}: {"simclock", "Since"},
-	{"time", "Until"}: {"simclock", "Until"},
-	{"time", "Sleep"}: {"simclock", "Sleep"},
+	{"time", "Now"}:       {"simclock", "Now"},
+	{"time", "Since"}:     {"simclock", "Since"},
+	{"time", "Until"}:     {"simclock", "Until"},
+	{"time", "Sleep"}:     {"simclock", "Sleep"},
 	{"time", "AfterFunc"}: {"simclock", "AfterFunc"},
 	{"time", "Timer"}:     {"simclock", "Timer"},
 
@@ -94,12 +94,12 @@ var allowed = map[string]map[string]bool{
 }
 
 type report struct {
-	Files       int            `json:"files"`
-	Rewrites    map[string]int `json:"rewrites"`
-	MapRangeSites []string     `json:"map_range_sites"`
-	GoSites     []string       `json:"go_sites"`
-	Unsupported []string       `json:"unsupported"`
-	Notes       []string       `json:"notes"`
+	Files         int            `json:"files"`
+	Rewrites      map[string]int `json:"rewrites"`
+	MapRangeSites []string       `json:"map_range_sites"`
+	GoSites       []string       `json:"go_sites"`
+	Unsupported   []string       `json:"unsupported"`
+	Notes         []string       `json:"notes"`
 }
 
 var rep = report{Rewrites: map[string]int{}}
